@@ -157,6 +157,7 @@ type keptPath struct {
 type Ctx struct {
 	scribbleSeq int
 	curKind     string
+	curN        int
 	ranges   []addrRange
 	kept     []keptPath
 	task     int
@@ -224,11 +225,14 @@ func (c *Ctx) in64(op *Op, k int) clip.Paths64 {
 	}
 	var p clip.Paths64
 	if c.reuse != nil {
-		// the caller keeps ONE buffer per input and refills it before every call
-		in := c.reuse[ref]
+		// the caller keeps ONE buffer per input and argument position and
+		// refills it before every call (an input passed as two arguments of
+		// one call is two equal buffers here and one slice in the reference
+		// execution: equal inputs either way)
+		in := c.reuse[ref<<3|k&7]
 		if in == nil {
 			in = &Input{p64: privCopy64(c.pool[ref].p64)}
-			c.reuse[ref] = in
+			c.reuse[ref<<3|k&7] = in
 		}
 		for i, src := range c.pool[ref].p64 {
 			for j, pt := range src {
@@ -256,10 +260,10 @@ func (c *Ctx) inD(op *Op, k int) clip.PathsD {
 	}
 	var p clip.PathsD
 	if c.reuse != nil {
-		in := c.reuse[ref]
+		in := c.reuse[ref<<3|k&7]
 		if in == nil {
 			in = &Input{isD: true, pd: privCopyD(c.pool[ref].pd)}
-			c.reuse[ref] = in
+			c.reuse[ref<<3|k&7] = in
 		}
 		for i, src := range c.pool[ref].pd {
 			for j, pt := range src {
@@ -307,17 +311,19 @@ func privCopyD(src clip.PathsD) clip.PathsD {
 	return out
 }
 
-func first64(p clip.Paths64) clip.Path64 {
+// nth64 / nthD: the path a single-path argument takes from an input (Op.N
+// modulo the number of paths; 0 in scripts recorded before the field existed)
+func (c *Ctx) nth64(p clip.Paths64) clip.Path64 {
 	if len(p) == 0 {
 		return nil
 	}
-	return p[0]
+	return p[c.curN%len(p)]
 }
-func firstD(p clip.PathsD) clip.PathD {
+func (c *Ctx) nthD(p clip.PathsD) clip.PathD {
 	if len(p) == 0 {
 		return nil
 	}
-	return p[0]
+	return p[c.curN%len(p)]
 }
 
 // unwatch removes the watch on a path set that the caller deliberately hands
@@ -485,16 +491,16 @@ func init() {
 
 	// ---- Minkowski ----
 	reg("MinkowskiSum64", []string{"MinkowskiSum64"}, func(c *Ctx, op *Op, e *Enc, out *Outcome) {
-		e.paths64("r", clip.MinkowskiSum64(first64(c.in64(op, 0)), first64(c.in64(op, 1)), op.i(0) != 0))
+		e.paths64("r", clip.MinkowskiSum64(c.nth64(c.in64(op, 0)), c.nth64(c.in64(op, 1)), op.i(0) != 0))
 	})
 	reg("MinkowskiDiff64", []string{"MinkowskiDiff64"}, func(c *Ctx, op *Op, e *Enc, out *Outcome) {
-		e.paths64("r", clip.MinkowskiDiff64(first64(c.in64(op, 0)), first64(c.in64(op, 1)), op.i(0) != 0))
+		e.paths64("r", clip.MinkowskiDiff64(c.nth64(c.in64(op, 0)), c.nth64(c.in64(op, 1)), op.i(0) != 0))
 	})
 	reg("MinkowskiSumD", []string{"MinkowskiSumD"}, func(c *Ctx, op *Op, e *Enc, out *Outcome) {
-		e.pathsD("r", clip.MinkowskiSumD(firstD(c.inD(op, 0)), firstD(c.inD(op, 1)), op.i(0) != 0, precArgs(op, 1, 2)...))
+		e.pathsD("r", clip.MinkowskiSumD(c.nthD(c.inD(op, 0)), c.nthD(c.inD(op, 1)), op.i(0) != 0, precArgs(op, 1, 2)...))
 	})
 	reg("MinkowskiDiffD", []string{"MinkowskiDiffD"}, func(c *Ctx, op *Op, e *Enc, out *Outcome) {
-		e.pathsD("r", clip.MinkowskiDiffD(firstD(c.inD(op, 0)), firstD(c.inD(op, 1)), op.i(0) != 0, precArgs(op, 1, 2)...))
+		e.pathsD("r", clip.MinkowskiDiffD(c.nthD(c.inD(op, 0)), c.nthD(c.inD(op, 1)), op.i(0) != 0, precArgs(op, 1, 2)...))
 	})
 
 	// ---- rectangle clipping ----
@@ -504,48 +510,48 @@ func init() {
 		e.paths64("r", clip.RectClipPaths64(r64(op, 0), c.in64(op, 0)))
 	})
 	reg("RectClipPath64", []string{"RectClipPath64"}, func(c *Ctx, op *Op, e *Enc, out *Outcome) {
-		e.paths64("r", clip.RectClipPath64(r64(op, 0), first64(c.in64(op, 0))))
+		e.paths64("r", clip.RectClipPath64(r64(op, 0), c.nth64(c.in64(op, 0))))
 	})
 	reg("RectClipLinesPaths64", []string{"RectClipLinesPaths64", "NewRectClipLines64"}, func(c *Ctx, op *Op, e *Enc, out *Outcome) {
 		e.paths64("r", clip.RectClipLinesPaths64(r64(op, 0), c.in64(op, 0)))
 	})
 	reg("RectClipLinesPath64", []string{"RectClipLinesPath64"}, func(c *Ctx, op *Op, e *Enc, out *Outcome) {
-		e.paths64("r", clip.RectClipLinesPath64(r64(op, 0), first64(c.in64(op, 0))))
+		e.paths64("r", clip.RectClipLinesPath64(r64(op, 0), c.nth64(c.in64(op, 0))))
 	})
 	reg("RectClipPathsD", []string{"RectClipPathsD", "NewRectD", "ScaleRectD"}, func(c *Ctx, op *Op, e *Enc, out *Outcome) {
 		e.pathsD("r", clip.RectClipPathsD(rD(op, 0), c.inD(op, 0), precArgs(op, 0, 1)...))
 	})
 	reg("RectClipPathD", []string{"RectClipPathD"}, func(c *Ctx, op *Op, e *Enc, out *Outcome) {
-		e.pathsD("r", clip.RectClipPathD(rD(op, 0), firstD(c.inD(op, 0))))
+		e.pathsD("r", clip.RectClipPathD(rD(op, 0), c.nthD(c.inD(op, 0))))
 	})
 	reg("RectClipLinesPathsD", []string{"RectClipLinesPathsD"}, func(c *Ctx, op *Op, e *Enc, out *Outcome) {
 		e.pathsD("r", clip.RectClipLinesPathsD(rD(op, 0), c.inD(op, 0), precArgs(op, 0, 1)...))
 	})
 	reg("RectClipLinesPathD", []string{"RectClipLinesPathD"}, func(c *Ctx, op *Op, e *Enc, out *Outcome) {
-		e.pathsD("r", clip.RectClipLinesPathD(rD(op, 0), firstD(c.inD(op, 0))))
+		e.pathsD("r", clip.RectClipLinesPathD(rD(op, 0), c.nthD(c.inD(op, 0))))
 	})
 
 	// ---- path utilities ----
 	reg("TrimCollinear64", []string{"TrimCollinear64"}, func(c *Ctx, op *Op, e *Enc, out *Outcome) {
-		e.s("r=").path64(clip.TrimCollinear64(first64(c.in64(op, 0)), op.i(0) != 0))
+		e.s("r=").path64(clip.TrimCollinear64(c.nth64(c.in64(op, 0)), op.i(0) != 0))
 	})
 	reg("TrimCollinearD", []string{"TrimCollinearD"}, func(c *Ctx, op *Op, e *Enc, out *Outcome) {
-		e.s("r=").pathD(clip.TrimCollinearD(firstD(c.inD(op, 0)), int(op.i(0)), op.i(1) != 0))
+		e.s("r=").pathD(clip.TrimCollinearD(c.nthD(c.inD(op, 0)), int(op.i(0)), op.i(1) != 0))
 	})
 	reg("SimplifyPath64", []string{"SimplifyPath64"}, func(c *Ctx, op *Op, e *Enc, out *Outcome) {
-		e.s("r=").path64(clip.SimplifyPath64(first64(c.in64(op, 0)), op.f(0), op.i(0) != 0))
+		e.s("r=").path64(clip.SimplifyPath64(c.nth64(c.in64(op, 0)), op.f(0), op.i(0) != 0))
 	})
 	reg("SimplifyPaths64", []string{"SimplifyPaths64"}, func(c *Ctx, op *Op, e *Enc, out *Outcome) {
 		e.paths64("r", clip.SimplifyPaths64(c.in64(op, 0), op.f(0), op.i(0) != 0))
 	})
 	reg("SimplifyPathD", []string{"SimplifyPathD"}, func(c *Ctx, op *Op, e *Enc, out *Outcome) {
-		e.s("r=").pathD(clip.SimplifyPathD(firstD(c.inD(op, 0)), op.f(0), op.i(0) != 0))
+		e.s("r=").pathD(clip.SimplifyPathD(c.nthD(c.inD(op, 0)), op.f(0), op.i(0) != 0))
 	})
 	reg("SimplifyPathsD", []string{"SimplifyPathsD"}, func(c *Ctx, op *Op, e *Enc, out *Outcome) {
 		e.pathsD("r", clip.SimplifyPathsD(c.inD(op, 0), op.f(0), op.i(0) != 0))
 	})
 	reg("StripDuplicates", []string{"StripDuplicates"}, func(c *Ctx, op *Op, e *Enc, out *Outcome) {
-		e.s("r=").path64(clip.StripDuplicates(first64(c.in64(op, 0)), op.i(0) != 0))
+		e.s("r=").path64(clip.StripDuplicates(c.nth64(c.in64(op, 0)), op.i(0) != 0))
 	})
 	reg("Area64", []string{"Area64", "AreaPaths64", "IsPositive64"}, func(c *Ctx, op *Op, e *Enc, out *Outcome) {
 		p := c.in64(op, 0)
@@ -562,43 +568,43 @@ func init() {
 		}
 	})
 	reg("GetBounds64", []string{"GetBounds64", "Rect64.AsPath"}, func(c *Ctx, op *Op, e *Enc, out *Outcome) {
-		e.rect64("r", clip.GetBounds64(first64(c.in64(op, 0))))
+		e.rect64("r", clip.GetBounds64(c.nth64(c.in64(op, 0))))
 	})
 	reg("ReversePath", []string{"ReversePath"}, func(c *Ctx, op *Op, e *Enc, out *Outcome) {
-		e.s("r=").path64(clip.ReversePath(first64(c.in64(op, 0))))
-		e.s(" d=").pathD(clip.ReversePath(firstD(c.inD(op, 1))))
+		e.s("r=").path64(clip.ReversePath(c.nth64(c.in64(op, 0))))
+		e.s(" d=").pathD(clip.ReversePath(c.nthD(c.inD(op, 1))))
 	})
 	reg("Translate64", []string{"OffsetPath", "TranslatePath64", "TranslatePaths64"}, func(c *Ctx, op *Op, e *Enc, out *Outcome) {
 		p := c.in64(op, 0)
-		e.s("o=").path64(clip.OffsetPath(first64(p), op.i(0), op.i(1)))
-		e.s(" t=").path64(clip.TranslatePath64(first64(p), op.i(0), op.i(1)))
+		e.s("o=").path64(clip.OffsetPath(c.nth64(p), op.i(0), op.i(1)))
+		e.s(" t=").path64(clip.TranslatePath64(c.nth64(p), op.i(0), op.i(1)))
 		e.paths64(" ts", clip.TranslatePaths64(p, op.i(0), op.i(1)))
 	})
 	reg("TranslateD", []string{"TranslatePathD", "TranslatePathsD"}, func(c *Ctx, op *Op, e *Enc, out *Outcome) {
 		p := c.inD(op, 0)
-		e.s("t=").pathD(clip.TranslatePathD(firstD(p), op.f(0), op.f(1)))
+		e.s("t=").pathD(clip.TranslatePathD(c.nthD(p), op.f(0), op.f(1)))
 		e.pathsD(" ts", clip.TranslatePathsD(p, op.f(0), op.f(1)))
 	})
 	reg("Scale64", []string{"ScalePath64", "ScalePath64ToPathD", "ScalePaths64ToPathsD", "Path64ToPathD", "Paths64ToPathsD", "ScaleRect64"}, func(c *Ctx, op *Op, e *Enc, out *Outcome) {
 		p := c.in64(op, 0)
-		e.s("s=").path64(clip.ScalePath64(first64(p), op.f(0)))
-		e.s(" sd=").pathD(clip.ScalePath64ToPathD(first64(p), op.f(0)))
+		e.s("s=").path64(clip.ScalePath64(c.nth64(p), op.f(0)))
+		e.s(" sd=").pathD(clip.ScalePath64ToPathD(c.nth64(p), op.f(0)))
 		e.pathsD(" sds", clip.ScalePaths64ToPathsD(p, op.f(0)))
-		e.s(" c=").pathD(clip.Path64ToPathD(first64(p)))
+		e.s(" c=").pathD(clip.Path64ToPathD(c.nth64(p)))
 		e.pathsD(" cs", clip.Paths64ToPathsD(p))
-		e.rect64(" sr", clip.ScaleRect64(clip.GetBounds64(first64(p)), op.f(0)))
+		e.rect64(" sr", clip.ScaleRect64(clip.GetBounds64(c.nth64(p)), op.f(0)))
 	})
 	reg("ScaleD", []string{"ScalePathD", "ScalePathDToPath64", "ScalePathsDToPaths64", "PathDToPath64", "PathsDToPaths64"}, func(c *Ctx, op *Op, e *Enc, out *Outcome) {
 		p := c.inD(op, 0)
-		e.s("s=").pathD(clip.ScalePathD(firstD(p), op.f(0)))
-		e.s(" s64=").path64(clip.ScalePathDToPath64(firstD(p), op.f(0)))
+		e.s("s=").pathD(clip.ScalePathD(c.nthD(p), op.f(0)))
+		e.s(" s64=").path64(clip.ScalePathDToPath64(c.nthD(p), op.f(0)))
 		e.paths64(" s64s", clip.ScalePathsDToPaths64(p, op.f(0)))
-		e.s(" c=").path64(clip.PathDToPath64(firstD(p)))
+		e.s(" c=").path64(clip.PathDToPath64(c.nthD(p)))
 		e.paths64(" cs", clip.PathsDToPaths64(p))
 	})
 	reg("PointInPolygon", []string{"PointInPolygon", "Path2ContainsPath1"}, func(c *Ctx, op *Op, e *Enc, out *Outcome) {
-		p := first64(c.in64(op, 0))
-		q := first64(c.in64(op, 1))
+		p := c.nth64(c.in64(op, 0))
+		q := c.nth64(c.in64(op, 1))
 		e.s("pip=").int(int64(clip.PointInPolygon(clip.Point64{X: op.i(0), Y: op.i(1)}, p)))
 		for _, v := range q {
 			e.s(",").int(int64(clip.PointInPolygon(v, p)))
@@ -1178,7 +1184,7 @@ func regObjectOps() {
 			p = p[:1]
 		}
 		addRec64(c, ob, p, op, "AddPath")
-		ob.e64.AddPath(first64(p), ptype(op, 0), op.i(1) != 0)
+		ob.e64.AddPath(c.nth64(p), ptype(op, 0), op.i(1) != 0)
 		e.s("added")
 	}), "c64", false)
 	exec64 := func(form string) func(c *Ctx, op *Op, e *Enc, out *Outcome) {
@@ -1253,7 +1259,7 @@ func regObjectOps() {
 			ob.addAfterExec = true
 			c.fire("add-after-exec")
 		}
-		ob.ed.AddPath(first64(p), ptype(op, 0), op.i(1) != 0)
+		ob.ed.AddPath(c.nth64(p), ptype(op, 0), op.i(1) != 0)
 		e.s("added")
 	}), "cd", false)
 	execD := func(form string) func(c *Ctx, op *Op, e *Enc, out *Outcome) {
@@ -1445,6 +1451,10 @@ func (c *Ctx) runOp(op *Op) Outcome {
 		return Outcome{Enc: "unknown-op"}
 	}
 	c.curKind = op.K
+	c.curN = op.N
+	if c.curN < 0 {
+		c.curN = 0
+	}
 	var ob *Obj
 	if d.obj != "" {
 		ob = c.obj(op.O)
@@ -1487,4 +1497,11 @@ func sortedKeysI(m map[string]int64) []string {
 	}
 	sort.Strings(k)
 	return k
+}
+
+func first64(p clip.Paths64) clip.Path64 {
+	if len(p) == 0 {
+		return nil
+	}
+	return p[0]
 }
